@@ -478,10 +478,16 @@ fn harness_notes(ix: &Ix, f: &mut Findings) {
     for e in ix.log {
         if let K::Note(s) = &e.k {
             if let Some(rest) = s.strip_prefix("VIOL:") {
-                let clause: &'static str = if rest.starts_with("C16") {
+                let clause: &'static str = if rest.starts_with("C16 a client") {
+                    "C16.equal_effect"
+                } else if rest.starts_with("C16") {
                     "C16.views"
                 } else if rest.starts_with("C11") {
                     "C11.identity"
+                } else if rest.starts_with("C03") {
+                    "C03.returns"
+                } else if rest.starts_with("C17") {
+                    "C17.same_rules"
                 } else {
                     "C16.views"
                 };
